@@ -642,7 +642,7 @@ func init() {
 			if tier == "thorough" {
 				return 800000
 			}
-			return 24000
+			return 120000
 		},
 		Run:        runC12,
 		Required:   []string{"must_accept_checked", "must_reject_checked", "real_server_cases", "response_lines_checked"},
